@@ -144,6 +144,16 @@ func (c *liteCtl) record(m *bft.Message) {
 	}
 	h := m.Qc.Header
 	c.s.Signed.Add(c.r.Idx, h, m.SignBytes())
+	if h.Phase == bft.ElectionVote {
+		k := roundKey(h)
+		ri := c.s.Rounds[k]
+		if ri == nil {
+			ri = &RoundInfo{Key: k, Selected: map[int]int{}, FirstSeen: c.s.Now}
+			c.s.Rounds[k] = ri
+			c.s.RoundOrder = append(c.s.RoundOrder, ri)
+		}
+		ri.Selected[c.r.Idx] = c.s.indexOf(m.Qc.ProposerKey)
+	}
 	k := ViewKey(h)
 	p := crypto.HashString(m.SignBytes())
 	if prev, ok := c.r.votesSent[k]; ok && prev != p {
